@@ -180,6 +180,25 @@ func execReuse(api, init string, fv int, gts []*valgen.GT, wire []byte) string {
 			rows = append(rows, show())
 		}
 		return out + " rows:[" + strings.Join(rows, "|") + "] " + iterEnd(it)
+	case "mapscan":
+		// the documented use of MapScan with pointers: a NEW map on every call, pointing at the SAME variables
+		for i := 0; i <= n; i++ {
+			rd, _ := it.RowData()
+			m := make(map[string]interface{}, len(dests))
+			if len(rd.Columns) == len(dests) {
+				for j, c := range rd.Columns {
+					m[c] = dests[j]
+				}
+			}
+			if !it.MapScan(m) {
+				if failed, _, _ := gocql.VerifC04IterState(it); failed {
+					rows = append(rows, "!")
+				}
+				break
+			}
+			rows = append(rows, show())
+		}
+		return out + " rows:[" + strings.Join(rows, "|") + "] " + iterEnd(it)
 	case "scanner":
 		sc := it.Scanner()
 		status := "done"
@@ -671,7 +690,7 @@ func reuseClass(api, init string, slots []slot, cols []colSpec, rows [][]cell) (
 func (x *runner) reuseOps(v int, mult int) {
 	g := x.g
 	for rep := 0; rep < 120*mult; rep++ {
-		api := []string{"scan", "scanner"}[rep%2]
+		api := []string{"scan", "scanner", "scan", "scanner", "mapscan"}[rep%5]
 		init := "Z"
 		if g.r.Intn(3) == 0 {
 			init = "D"
@@ -816,7 +835,10 @@ func (x *runner) reuseSystematic(v int) {
 	for _, sc := range sysCases() {
 		for _, ds := range sc.dests {
 			for pi, pat := range sysPatterns {
-				for ai, api := range []string{"scan", "scanner"} {
+				for ai, api := range []string{"scan", "scanner", "mapscan"} {
+					if api == "mapscan" && pi%2 == 1 {
+						continue
+					}
 					init := "Z"
 					if (pi+ai)%2 == 1 {
 						init = "D"
